@@ -287,3 +287,144 @@ Proof.
 Qed.
 
 End Concrete.
+
+(* ---- set_stream ---- *)
+Section SetStream.
+Variable maxc : N.
+
+Lemma aset_stream_B a s a' : aset_stream a s = ASetOk a' -> a_B a' = a_B a.
+Proof.
+  unfold aset_stream. destruct (accepts (r_role (a_req a)) (a_stream a) s) as [[|]|]; try discriminate.
+  destruct (optN_eqb s (a_stream a)); intros H; inversion H; reflexivity.
+Qed.
+
+(* an accepted set_stream: invariant kept, replies and the content of every stream untouched; when the
+   selection changes, the stream buffer is dropped and the new epoch will deliver exactly the not yet
+   consumed content of the newly selected stream *)
+Theorem set_stream_call p s p' : sp_inv p -> set_stream p s = SetOk p' ->
+  sp_inv p' /\ sreq p' = sreq p /\ len (buffer p') = len (buffer p) /\
+  output_buffer p' = output_buffer p /\ raw_bytes p' = raw_bytes p /\
+  (forall u, R maxc (abs p') u = R maxc (abs p) u) /\
+  (forall sg u, F sg (abs p') u = F sg (abs p) u) /\
+  (optN_eqb s (stream p) = true -> p' = p) /\
+  (optN_eqb s (stream p) = false ->
+     stream p' = s /\ stream_buffer p' = [] /\ forall u, K (abs p') u = F s (abs p) u).
+Proof.
+  intros [HRI Hinv] E. pose proof (set_stream_refines p s HRI) as Href. rewrite E in Href.
+  destruct (aset_stream (abs p) s) as [a'| |] eqn:Ea; try contradiction.
+  destruct Href as [HRI' Habs]. subst a'.
+  pose proof (aset_stream_B _ _ _ Ea) as HB.
+  destruct (set_stream_law maxc (abs p) s (abs p') [] Hinv Ea) as (Hsame & Hdiff & _ & _ & Hinv').
+  split; [split; assumption|].
+  assert (Hfields : sreq p' = sreq p /\ output_buffer p' = output_buffer p /\ raw_bytes p' = raw_bytes p).
+  { destruct (optN_eqb s (stream p)) eqn:Eq.
+    - specialize (Hsame Eq).
+      split; [exact (f_equal a_req Hsame)|]. split; [exact (f_equal a_out Hsame)|exact (f_equal a_raw Hsame)].
+    - destruct (Hdiff Eq) as (_ & _ & Hq & Ho & Hr & _).
+      split; [exact Hq|]. split; [exact Ho|exact Hr]. }
+  destruct Hfields as (Hq & Ho & Hr).
+  split; [exact Hq|]. split; [exact HB|]. split; [exact Ho|]. split; [exact Hr|].
+  split. { intros u. apply (set_stream_law maxc (abs p) s (abs p') u Hinv Ea). }
+  split. { intros sg u. apply (set_stream_law maxc (abs p) s (abs p') u Hinv Ea). }
+  split.
+  { intros Eq. unfold set_stream in E.
+    destruct (match s with
+              | Some x => match cmp_input_streams (r_role (sreq p)) x (stream p) with
+                          | None => None | Some Lt => Some false | Some _ => Some true end
+              | None => Some true end) as [[|]|]; try discriminate E.
+    rewrite Eq in E. injection E as E. symmetry. exact E. }
+  intros Eq. destruct (Hdiff Eq) as (Hs & Hp & _).
+  split; [exact Hs|]. split; [exact Hp|].
+  intros u. apply (set_stream_law maxc (abs p) s (abs p') u Hinv Ea). exact Eq.
+Qed.
+
+(* set_stream never panics when asked for an input stream (Option<Stream> in the Rust signature) *)
+Theorem set_stream_no_panic p s : sp_inv p ->
+  match s with Some x => is_input_stream x = true | None => True end ->
+  set_stream p s <> SetPanic.
+Proof.
+  intros Hsp Hs E. pose proof (sp_inv_stream_ok p Hsp) as Hok. unfold stream_ok in Hok.
+  unfold set_stream in E. destruct s as [x|].
+  - destruct (cmp_input_streams (r_role (sreq p)) x (stream p)) as [[| |]|] eqn:Ec.
+    + discriminate E.
+    + destruct (optN_eqb (Some x) (stream p)); discriminate E.
+    + destruct (optN_eqb (Some x) (stream p)); discriminate E.
+    + destruct (stream p) as [c|].
+      * apply (cmp_some _ _ _ Hs Hok Ec).
+      * discriminate Ec.
+  - destruct (optN_eqb None (stream p)); discriminate E.
+Qed.
+
+(* selecting a later stream is always accepted *)
+Theorem set_stream_later p sg : sp_inv p -> later_stream (abs p) sg ->
+  exists p', set_stream p (Some sg) = SetOk p' /\ optN_eqb (Some sg) (stream p) = false.
+Proof.
+  intros Hsp Hl. unfold later_stream in Hl. change (a_stream (abs p)) with (stream p) in Hl.
+  change (a_req (abs p)) with (sreq p) in Hl.
+  destruct (stream p) as [c|] eqn:Es; [|contradiction].
+  assert (Hne : optN_eqb (Some sg) (Some c) = false).
+  { cbn [optN_eqb]. destruct (N.eqb_spec sg c) as [E|_]; [|reflexivity].
+    subst c. unfold cmp_input_streams in Hl.
+    destruct (negb (is_input_stream sg) || negb (is_input_stream sg)); [discriminate Hl|].
+    rewrite N.eqb_refl in Hl. discriminate Hl. }
+  unfold set_stream. rewrite Es, Hl, Hne. eexists. split; reflexivity.
+Qed.
+End SetStream.
+
+(* ---- the initial state: request::Parser::into_stream_parser ---- *)
+Lemma next_input_none_ok role :
+  match next_input_stream role None with Some e => is_input_stream e = true | None => True end.
+Proof.
+  unfold next_input_stream, NEXT_INPUT_STREAM. cbn [find fst snd optN_eqb].
+  rewrite andb_true_r, andb_false_r.
+  destruct (memN role [1; 3]); [reflexivity|exact I].
+Qed.
+
+Theorem into_stream_parser_inv rp r : parser_ok rp -> st rp = Done r ->
+  exists sp0, into_stream_parser rp = inl sp0 /\ sp_inv sp0 /\
+    sreq sp0 = r /\ stream sp0 = next_input_stream (r_role r) None /\ len (buffer sp0) = cap rp /\
+    stream_buffer sp0 = [] /\ output_buffer sp0 = [] /\ raw_bytes sp0 = held rp /\
+    payload_rem sp0 = 0 /\ padding_rem sp0 = 0 /\
+    abs sp0 = mkA (cap rp) (cap rp - len (held rp)) [] (held rp) [] r (next_input_stream (r_role r) None) 0 0 SSkip.
+Proof.
+  intros (_ & _ & Hb & Hl & Hc) Hst.
+  destruct (into_stream_parser_init rp r Hst Hl) as (p0 & E & HRI & Habs).
+  exists p0. split; [exact E|].
+  split.
+  { split; [exact HRI|]. rewrite Habs. unfold a_inv, a_ok.
+    cbn [a_B a_space a_parsed a_raw a_out a_req a_stream a_prem a_pad a_st].
+    change (len (@nil N)) with 0.
+    split; [lia|]. split; [lia|]. split; [lia|]. split; [exact Hb|]. split; [discriminate|].
+    apply next_input_none_ok. }
+  split; [exact (f_equal a_req Habs)|]. split; [exact (f_equal a_stream Habs)|].
+  split; [exact (f_equal a_B Habs)|]. split; [exact (f_equal a_parsed Habs)|].
+  split; [exact (f_equal a_out Habs)|]. split; [exact (f_equal a_raw Habs)|].
+  split; [exact (f_equal a_prem Habs)|]. split; [exact (f_equal a_pad Habs)|exact Habs].
+Qed.
+
+(* what the fresh stream parser owes: the content of the role's first input stream / the replies /
+   the content of any stream, all counted from the first byte after the preamble *)
+Theorem into_stream_parser_targets maxc rp r sp0 : parser_ok rp -> st rp = Done r ->
+  into_stream_parser rp = inl sp0 ->
+  forall u,
+    K (abs sp0) u = content_from (r_role r) (r_id r) (content_fuel (held rp ++ u))
+                                 (next_input_stream (r_role r) None) false 0 0 (held rp ++ u) /\
+    R maxc (abs sp0) u = replies_all maxc (r_id r) (content_fuel (held rp ++ u)) SSkip 0 0 (held rp ++ u) /\
+    forall sg, F sg (abs sp0) u = content_from (r_role r) (r_id r) (content_fuel (held rp ++ u)) sg false 0 0 (held rp ++ u).
+Proof.
+  intros Hok Hst E u.
+  destruct (into_stream_parser_inv rp r Hok Hst) as (p0 & E' & _ & _ & _ & _ & _ & _ & _ & _ & _ & Habs).
+  rewrite E in E'. injection E' as <-.
+  unfold K, R, F, cur_of. rewrite Habs.
+  cbn [a_B a_space a_parsed a_raw a_out a_req a_stream a_prem a_pad a_st app].
+  split; [reflexivity|]. split; [reflexivity|]. intros sg. reflexivity.
+Qed.
+
+Print Assumptions sparse_call.
+Print Assumptions concrete_schedule_law.
+Print Assumptions concrete_schedule.
+Print Assumptions set_stream_call.
+Print Assumptions set_stream_no_panic.
+Print Assumptions set_stream_later.
+Print Assumptions into_stream_parser_inv.
+Print Assumptions into_stream_parser_targets.
